@@ -951,6 +951,10 @@ func (s *Sim) Blocked() []*Task {
 	return out
 }
 
+// WaitingForLock reports whether the task is blocked waiting for a sim mutex
+// (as opposed to a channel operation, a timer, ...). Controller only, at quiescence.
+func (t *Task) WaitingForLock() bool { return t.waitM != nil || t.waitRW != nil }
+
 func (t *Task) Key() string   { return t.key }
 func (t *Task) Name() string  { return t.name }
 func (t *Task) Label() string { return t.label }
